@@ -198,10 +198,12 @@ def r5(ctx):
     for v in vals:
         for st in _find_apps(v, 'setitem'):
             base, key, val = st.args
-            if 'attr:_mask(self)' in show(key) and same(val, sym('fill')) and \
+            via_attr = 'attr:_mask(self)' in show(key) and ok_mask
+            direct = isinstance(key, Cmp) and key.op == '==' and key.rhs == 0 and show(key.lhs) == 'attr:data(self)'
+            if (via_attr or direct) and same(val, sym('fill')) and \
                     'binop:Mult' in show(base) and 'attr:data(self)' in show(base):
                 ok_mul = True
-    if ok_mask and ok_mul:
+    if ok_mul:
         ctx.ok('RegionMask.multiply', 'cutout*data, then [data==0] = fill_value')
     else:
         ctx.bad('RegionMask.multiply', 'zero-map',
@@ -243,10 +245,45 @@ def r4(ctx):
             ctx.ok(f'RegionMask.{meth}', 'no store reaches the image / mask parameters')
 
 
+def r6(ctx):
+    """the mask operations are functions of the mask's *current* weight array and box: every attribute of `self` they read
+    is a constructor parameter (data, bbox), a property/method, or a class constant — not a value derived once in the
+    constructor, which goes stale when the weight array is edited in place (`mask.data[...] = ...`)."""
+    import ast as _ast
+    m = ctx.model
+    ci = m.cls('RegionMask')
+    init = method_or_fail(ctx, ci, '__init__')
+    params = {a.arg for a in init.node.args.args if a.arg != 'self'}
+    derived = {}
+    for st in _ast.walk(init.node):
+        if isinstance(st, _ast.Assign):
+            for t in st.targets:
+                if isinstance(t, _ast.Attribute) and isinstance(t.value, _ast.Name) and t.value.id == 'self' and t.attr not in params:
+                    derived[t.attr] = st
+    ctx.need(params >= {'data', 'bbox'}, init.qualname, f'constructor parameters are {sorted(params)}')
+    n = 0
+    for name, f in sorted(ci.methods.items()):
+        if name == '__init__':
+            continue
+        n += 1
+        reads = sorted({x.attr for x in _ast.walk(f.node) if isinstance(x, _ast.Attribute) and isinstance(x.value, _ast.Name)
+                        and x.value.id == 'self' and isinstance(x.ctx, _ast.Load) and x.attr in derived})
+        if reads:
+            a = reads[0]
+            ctx.bad(f'RegionMask.{name}', f'stale-derived:{a}',
+                    f'RegionMask.{name} reads self.{a}, computed once by the constructor (`{_ast.unparse(derived[a])[:60]}`): after the '
+                    'weight array is edited in place the result no longer is what placing the current mask array implies',
+                    f.loc())
+        else:
+            ctx.ok(f'RegionMask.{name}', 'reads the current data / bbox (and properties of them) only')
+    ctx.need(n >= 6, 'RegionMask', f'only {n} methods')
+
+
 RULES = [
     RuleDef('R1', 'window consistency (clip, shift by origin, y before x)', r1, 2),
     RuleDef('R2', 'window roles in to_image / cutout', r2, 3),
     RuleDef('R3', 'None test dominates window uses; no-overlap exits', r3, 5),
     RuleDef('R4', 'input image / mask never written', r4, 5),
     RuleDef('R5', 'multiply zero-map and get_values selection', r5, 2),
+    RuleDef('R6', 'mask operations read the current weight array (no constructor-time derived state)', r6, 6),
 ]
